@@ -127,12 +127,16 @@ OmpNextNest ==
        ELSE /\ stage' = "done"
             /\ UNCHANGED <<genvars, runvars, pend>>
 
-OmpStep == \E t \in OmpThreads : OmpStmt(t) \/ (\E o1 \in pend : Grab(t, o1))
+DoGrab    == \E t \in OmpThreads : \E o1 \in pend : Grab(t, o1)
+DoOmpStmt == \E t \in OmpThreads : OmpStmt(t)
+OmpStep == DoGrab \/ DoOmpStmt
+OBegin == DoBegin /\ UNCHANGED pend
+OAdd == DoAdd /\ UNCHANGED pend
+ONextPhase == DoNextPhase /\ UNCHANGED pend
+OFinish == Finish /\ UNCHANGED pend
+DoOmpLaunch == \E a \in CheckArgs : OmpLaunch(a)
 
-OmpNext == \/ (Build /\ UNCHANGED pend)
-           \/ (\E a \in CheckArgs : OmpLaunch(a))
-           \/ OmpStep
-           \/ OmpNextNest
+OmpNext == OBegin \/ OAdd \/ ONextPhase \/ OFinish \/ DoOmpLaunch \/ DoGrab \/ DoOmpStmt \/ OmpNextNest
 
 OmpSpec == OmpInit /\ [][OmpNext]_ovars
 
